@@ -229,6 +229,106 @@ func init() {
 		Explanation: "Decides operator order and pairing in the plan builders: WHERE filter below GROUP BY on every path with a WHERE; HAVING applied between Flatten and ORDER/LIMIT in both planners that group on this node, keeping exactly rows whose helper value is 1 and hiding the helper column; IN-subqueries run before the predicate and nil results drop the row.",
 		NotDecided:  []string{"predicate evaluation inside goexpr", "HAVING arithmetic", "equality with a differential run", "FROM (subquery) field mapping beyond Unflatten's wiring"},
 		Assumptions: []string{"goexpr.Expr.Eval returns a bool or nil for boolean predicates"},
-		Rules:       []func(*Ctx){func(c *Ctx) { ruleC08a(c, "C08.a") }, func(c *Ctx) { ruleC08b(c, "C08.b") }, func(c *Ctx) { ruleC08c(c, "C08.c") }},
+		Rules:       []func(*Ctx){func(c *Ctx) { ruleC08a(c, "C08.a") }, func(c *Ctx) { ruleC08b(c, "C08.b") }, func(c *Ctx) { ruleC08c(c, "C08.c") }, func(c *Ctx) { ruleC08d(c, "C08.d") }},
 	})
+}
+
+// ruleC08d: exact keep/drop tests of the filter operators and the helper
+// column conventions their consumers rely on.
+func ruleC08d(c *Ctx, rule string) {
+	c.describe(rule, "dom/pairing: rowFilter and flatRowFilter forward a row exactly when Include returned a non-nil key/row (an empty but non-nil key is a row); the sub-query field source emits _points first and _having after it (addHaving reads the flag from the last column); a selected alias is always registered for HAVING name resolution")
+	for _, name := range []string{"(*z/core.rowFilter).Iterate", "(*z/core.flatRowFilter).Iterate"} {
+		fn := c.need(rule, name)
+		if fn == nil {
+			continue
+		}
+		n := 0
+		for _, a := range fn.AnonFuncs {
+			for _, call := range calls(a) {
+				if call.Common().StaticCallee() != nil || call.Common().IsInvoke() {
+					continue
+				}
+				v := call.Common().Value
+				if u, ok := v.(*ssa.UnOp); ok {
+					v = u.X
+				}
+				fv, isFV := v.(*ssa.FreeVar)
+				if !isFV || !isRowCallbackSig(call.Common().Signature()) || call.Common().Signature().Results().Len() != 2 {
+					continue
+				}
+				_ = fv
+				// the first argument (key / row) must be nil-tested exactly
+				arg0 := call.Common().Args[0]
+				exact := false
+				for _, g := range guardsOf(call.Block()) {
+					if x, nn, ok := nilTest(g); ok && nn && sameValue(x, arg0) {
+						exact = true
+					}
+				}
+				// and it is Include's result
+				fromInclude := dependsOn(arg0, func(x ssa.Value) bool {
+					ex, ok := x.(*ssa.Extract)
+					if !ok || ex.Index != 0 {
+						return false
+					}
+					cl, ok := ex.Tuple.(*ssa.Call)
+					return ok && cl.Call.StaticCallee() == nil && (isFieldLoad(cl.Call.Value, "z/core.rowFilter.Include") || isFieldLoad(cl.Call.Value, "z/core.flatRowFilter.Include"))
+				})
+				if !fromInclude {
+					continue
+				}
+				n++
+				c.check(rule, name+": forward exactly the rows Include kept", call.Pos(), exact, "onRow is called iff the included key/row != nil", "the filter does not forward a row exactly when Include returned non-nil (e.g. tests the key's length): rows with an empty but non-nil key — points carrying none of the dimensions, the NULL group — are dropped although the predicate holds")
+			}
+		}
+		c.floor(rule, "forwarding call in "+name, n, 1)
+	}
+	if fn := c.need(rule, "(z/planner.pointsAndHavingFieldSource).Get"); fn != nil {
+		// the append of PointsField precedes every append of a _having field
+		var first ssa.Instruction
+		var rest []ssa.Instruction
+		for _, call := range callsTo(fn, "builtin append") {
+			isPoints := false
+			for _, e := range variadicElems(call.Common().Args[1]) {
+				if globalName(e) == "z/core.PointsField" {
+					isPoints = true
+				}
+			}
+			if isPoints {
+				first = call
+			} else {
+				rest = append(rest, call)
+			}
+		}
+		ok := first != nil && len(rest) > 0
+		for _, r := range rest {
+			if first == nil || !instrDominates(first, r) {
+				ok = false
+			}
+		}
+		c.check(rule, "sub-query fields: _points first, _having last", fn.Pos(), ok, "append(result, PointsField) dominates the appends of _having fields", "the synthetic sub-query field list does not end with the _having flag: addHaving reads the keep/drop flag from the last column and would test _points instead")
+	}
+	if fn := c.need(rule, "(*z/sql.selectClause).addField"); fn != nil {
+		var app ssa.Instruction
+		for _, call := range callsTo(fn, "builtin append") {
+			app = call
+		}
+		var mus []ssa.Instruction
+		for _, in := range instrs(fn) {
+			if mu, ok := in.(*ssa.MapUpdate); ok && isFieldLoad(mu.Map, "z/sql.fielded.fieldsMap") {
+				mus = append(mus, mu)
+			}
+		}
+		ok := app != nil && len(mus) > 0
+		if ok {
+			for _, b := range fn.Blocks {
+				if r, isR := b.Instrs[len(b.Instrs)-1].(*ssa.Return); isR && reach([]*ssa.BasicBlock{app.Block()}, nil, nil)[b] {
+					if !mustPassBetween(app, r, mus) {
+						ok = false
+					}
+				}
+			}
+		}
+		c.check(rule, "a selected field is always registered under its name", fn.Pos(), ok, "every path that appends the field also sets fieldsMap[name]", "a selected alias can be appended without (re)registering it in fieldsMap: HAVING that refers to an alias shadowing a table column is evaluated on the raw column")
+	}
 }
